@@ -109,7 +109,9 @@ def check(tier, seed, replay=None):
         plan.append(('stats+writers', HARNESS, cfg_of(s_ + 1, 8, 300, 0, 64, 1, 8, 15, 1), None))
         # race detector: mixed operations, and index splits in the seeded configuration (the five insert goroutines share the collection's random source)
         plan.append(('race:mixed', RACE, cfg_of(s_ + 2, 6, 120, r % 2, rng.choice([8, 64]), 1, 8, 60, 0), renv))
-        plan.append(('race:splits', RACE, cfg_of(s_ + 3, 4, 70, 1 - (r % 2), 64, 0, 8, 60, 2), renv))
+        plan.append(('race:splits', RACE, cfg_of(s_ + 3, 4, 70, 1 - (r % 2), 64, r % 2, 8, 60, 2), renv))
+        # inserts only, with a reader checking every count against the real-time bounds
+        plan.append(('counts', HARNESS, cfg_of(s_ + 4, 6, 150, 0, 64, 1, 8, 30, 2), None))
     t_end = time.time() + (2400 if tier == 'thorough' else 400)
     if replay is not None:
         c = replay['config']
